@@ -64,6 +64,8 @@ fn vk_c01_brace_number_action() {
     kani::cover!(!n.ok, "digit_string_overflows_i64");
     kani::cover!(n.ok && n.v == i64::MAX as u64 && s == 2, "max_negated");
     let r = k_brace_number(sign, n);
+    // the contract the brace-sequence expander relies on (assumed by vk_c01_brace_number_sequence): sign x magnitude never yields i64::MIN
+    if let Ok(v) = &r { assert!(*v != i64::MIN, "C01.brace.number_is_never_i64_min"); }
     std::mem::forget(r);
 }
 
